@@ -490,6 +490,8 @@ class X:
 
     # ---- truthiness / coercions
     def truth(self, v):
+        if hasattr(v, 'truth'):
+            return v.truth(self)
         if isinstance(v, VBool):
             return v.t
         if isinstance(v, VInt):
@@ -890,6 +892,8 @@ class X:
                 return ('indexed', length, lambda i: VTuple([VInt(i + start), item_at(i)]))
             raise Unsupported('enumerate over generator')
         v = self.eval(node)
+        if hasattr(v, 'as_seq'):
+            v = v.as_seq()
         if isinstance(v, (VTuple, VList)):
             return ('concrete', list(v.items))
         if isinstance(v, VStr):
